@@ -21,19 +21,19 @@ MODEL_NOTE = "Trusted base: the reference model sim/src/model.rs (written from s
 ENGINE_NOTE = "Engine-vs-engine oracle, no reference model involved. Only adapters expressible by SimAdapter's knobs (order-preserving read-ahead, buffering, eager neighbor iterators, hint use, consumer cancellation, interleaved live queries). Sampling over seeds, not enumeration."
 
 add("C01", "Seeded exploration: for every generated (schema, dataset, query, arguments) the real engine is run over the simulated adapter under the lazy schedule and under a random read-ahead schedule that also prunes by hints; both row multisets must equal the denotational reference model's. The simulator contributes that the answer is the model's for every legal adapter behaviour explored, not just the one the suite's adapters have.", MODEL_NOTE, "deterministic simulation: seeded schedule search + refinement against an executable reference model")
-add("C02", "Seeded exploration of the adapter pull/yield schedule space: per resolver call prefetch-inside-the-call (the issue #205 window), chunked refill, drain-all, eager neighbor iterators, and 2-3 interleaved live result iterators on one adapter; the row sequence must be identical to the strictly lazy baseline and the engine must not panic.", ENGINE_NOTE, "deterministic simulation: seeded search over read-ahead schedules and interleavings, compared with the lazy baseline")
+add("C02", "Seeded exploration of the adapter pull/yield schedule space: per resolver call prefetch-inside-the-call (the issue #205 window), chunked refill, drain-all, eager neighbor iterators, 2-3 interleaved live result iterators on one adapter (same compiled query, and two different compiled queries over one world), and the same data source served through the repository's BasicAdapter blanket impl and helper functions with chunked read-ahead; the row sequence must be identical to the strictly lazy baseline and the engine must not panic.", ENGINE_NOTE, "deterministic simulation: seeded search over read-ahead schedules and interleavings, compared with the lazy baseline")
 add("C03", "History check over the recorded adapter event log under the no-read-ahead schedule, with the consumer cancelling at tape-chosen rows: starting vertices pulled at row k == least number of leading starting vertices that contribute k rows (counts measured with the engine itself, one run per starting vertex), nothing pulled before the first next(), no adapter event after the iterator is dropped.", ENGINE_NOTE, "deterministic simulation: consumer-cancellation fault injection + history check on the event log")
 add("C04", "Buggify-style exploration: each hint site (static candidates, dynamically resolved candidates, mandatory edges, nested destinations) is an optional fast path that the simulated adapter takes at a tape-chosen subset of call sites; the row sequence must equal the hints-ignored run's, and the engine must not panic while resolving hints.", ENGINE_NOTE + " Never prunes on coerced_to_type() (not promised).", "deterministic simulation: cooperative fault points (hint pruning) at a random subset of sites per run")
 add("C05", "Online monitor in the simulated adapter in every configuration (lazy, random schedules with hint pruning and its re-entrant calls, cancellation): every resolve_property(vid, p) must find p in required_properties() of that call and in the list reported when vid was resolved.", ENGINE_NOTE, "deterministic simulation: history invariant over adapter call events")
-add("C09", "Seeded exploration with arguments biased to accepted-but-unusual values, under lazy and random schedules with hint pruning, consumer cancellation and interleaved live queries; no panic located outside the harness, and no run exceeding an event cap proportional to the reference model's work (bounded liveness).", ENGINE_NOTE + " A panic raised from sim/src/* is a harness error (exit 2).", "deterministic simulation: seeded schedule/fault search with panic capture and bounded-progress check")
-add("C13", "Per-row invariant in every configuration: key set == declared outputs == names derived from the query text; each value valid for the declared type (validity re-implemented from the type text); declared type == the documented rule computed from the harness AST.", MODEL_NOTE, "deterministic simulation: per-event invariant on ROW events across schedules and cancellation paths")
+add("C09", "Seeded exploration with arguments biased to accepted-but-unusual values (and, in a fifth of the cases, values outside the harness's own typing of the variable, which the engine may refuse or accept), under lazy and random schedules with hint pruning, consumer cancellation and interleaved live queries; no panic located outside the harness, and no run exceeding an event cap proportional to the reference model's work (bounded liveness).", ENGINE_NOTE + " A panic raised from sim/src/* is a harness error (exit 2).", "deterministic simulation: seeded schedule/fault search with panic capture and bounded-progress check")
+add("C13", "Per-row invariant in every configuration: key set == declared outputs == names derived from the query text; each value valid for the declared type (validity re-implemented from the type text); declared type == the documented rule computed from the harness AST; the engine's own row-construction assertion (inside construct_outputs) firing counts as a violation, because this debug-assertion build panics there where a production build would hand out the malformed row.", MODEL_NOTE, "deterministic simulation: per-event invariant on ROW events across schedules and cancellation paths")
 add("C21", "Online contract monitor at every adapter call and every pulled context, in every configuration: type defined; property/edge defined on it or __typename; coercion target a subtype; edge parameters exactly the declared set, of the declared type, equal to what the query text plus schema defaults say; every non-null active vertex an instance of the named type.", ENGINE_NOTE, "deterministic simulation: per-event invariant on CALL/PULL events")
 
-add("C14", "K separate processes that differ only in the hash seed behind an LD_PRELOAD getrandom seam (every HashMap/HashSet iteration order in the process is a function of VERIF_HASH_SEED), plus two in-process repetitions with freshly built schemas; digests of (compiled query or error, row sequence, complete adapter event log) must be identical for valid queries, deliberately broken queries and deliberately broken schemas.", "The hash seed is taken to be the only per-process nondeterminism trustfall_core can observe (no clocks, threads or I/O in it); ASLR left on, uncontrolled. required_properties() order excluded (documented as unordered). Sampling.", "deterministic simulation: process-level hash seed behind a seam, seeded workloads, cross-process log diff", engine="hashsim")
+add("C14", "K separate processes that differ only in the hash seed behind an LD_PRELOAD getrandom seam (every HashMap/HashSet iteration order in the process is a function of VERIF_HASH_SEED), plus two in-process repetitions with freshly built schemas; digests of (compiled query or error, row sequence, complete adapter event log) must be identical for valid queries, deliberately broken queries and deliberately broken schemas (one breaking mode per documented schema rule, several violations at once).", "The hash seed is taken to be the only per-process nondeterminism trustfall_core can observe (no clocks, threads or I/O in it); ASLR left on, uncontrolled. required_properties() order excluded (documented as unordered). Sampling.", "deterministic simulation: process-level hash seed behind a seam, seeded workloads, cross-process log diff", engine="hashsim")
 add("C15", "Record -> persist -> lose the source -> replay: the workload runs through AdapterTap<SimAdapter> (lazy, or read-ahead inside next() below the tap); rows must equal the untapped run; the Trace is serialised to RON, deserialised and compared; replay from the deserialised trace alone must reproduce the rows (complete, and a cancelled row prefix with complete=false) while the simulated data source sees no event.", ENGINE_NOTE + " Prefetch inside the resolver call is excluded: TraceReaderAdapter cannot replay such traces by design; recordings are never cancelled (the replayer always asks for one row more than expected).", "deterministic simulation: recorded history (trace) replayed after dropping the data source; read-ahead schedules below the tap")
 add("C22", "Workload biased to folds with count filters (all operators, boundary arguments, nested folds, count tags used in the same component, in later folds and in later folds' count filters) under random schedules; refinement against the reference model, which materialises every fold fully; and, model-free, three observation transforms (add a count output, add an output nested inside the fold, add a count tag plus a neutral use) must leave the original outputs and the row multiset unchanged.", MODEL_NOTE, "deterministic simulation: refinement against a full-materialisation model + observation transforms across independently drawn schedules")
-add("C23", "Eight metamorphic relations applied only where sound (add filter => subset; raise recursion depth => superset; make edge @optional => superset; parameterised edge == equivalent filter; '=' == one_of [x]; filter + exact negation partition the unfiltered rows; renaming outputs/tags; reordering sibling selections), original and transformed query each under an independently drawn schedule and hint subset, so the relation is checked across legal adapter behaviours.", ENGINE_NOTE + " The 'equivalent filter' relation uses the harness's own meaning of edge parameters (Eq/Min on a destination property).", "deterministic simulation: metamorphic relations between two independently scheduled runs")
-add("C24", "Compile-time Send+Sync assertion for Schema, IndexedQuery, IRQuery, InterpretedQuery, FieldValue, Type, EdgeParameters; and Miri as the thread scheduler (one -Zmiri-seed = one repeatable interleaving, data-race and UB detection): 2-3 threads from a barrier with cold statics parse/compile/execute concurrently, then share one Arc<Schema> and one Arc<IndexedQuery>; results must equal a sequential recomputation.", "Few interleavings per minute; assurance rests on the shared state being five OnceLock statics plus Arc counters, all visible to Miri (a change adding new shared state is seen too, unlike with shimmed primitives).", "deterministic simulation: Miri-seeded thread schedules with race detection; compile-time bound check", engine="mirisim")
+add("C23", "Metamorphic relations applied only where sound, over property filters and over fold-count filters (add filter => subset; raise recursion depth => superset; make edge @optional => superset; parameterised edge == equivalent filter; '=' == one_of [x]; filter + exact negation partition the unfiltered rows; renaming outputs/tags; reordering sibling selections), original and transformed query each under an independently drawn schedule and hint subset, so the relation is checked across legal adapter behaviours.", ENGINE_NOTE + " The 'equivalent filter' relation uses the harness's own meaning of edge parameters (Eq/Min on a destination property).", "deterministic simulation: metamorphic relations between two independently scheduled runs")
+add("C24", "Compile-time Send+Sync assertion for Schema, IndexedQuery, IRQuery, InterpretedQuery, FieldValue, Type, EdgeParameters; and Miri as the thread scheduler (one -Zmiri-seed = one repeatable interleaving, data-race and UB detection): cold variants: 2-3 threads from a barrier with cold statics parse (two schemas sharing all names) / compile / execute concurrently, then compile over one shared Arc<Schema>; hot variants: 3-4 threads execute six shared, never-executed Arc<IndexedQuery> at the same time with two argument sets (queries cover every filter family with variable and tag operands, folds, optional, recursion, coercion); results must equal a sequential recomputation.", "Few interleavings per minute (quick 20 seeds, thorough 192). Data races / UB are reported by the first seed that executes the racy code; a purely logical atomicity violation with a window of a few basic blocks is hit by roughly 3% of the seeds (measured on seeded change C24-a), so for that class the thorough tier is the one with power. A change adding new shared state is seen by Miri, unlike with shimmed primitives.", "deterministic simulation: Miri-seeded thread schedules with race detection; compile-time bound check", engine="mirisim")
 add("C25", "Fault enumeration: for each generated schema, every single contract violation (reorder by swap/rotate/reverse; non-null property, a neighbor, or a true coercion for a context without an active vertex) at every (resolver, type, field) site the checker reaches and at first/middle/last position is injected into an otherwise correct adapter, one per run of the real check_adapter_invariants; it must panic exactly when the fault fired, return for the fault-free adapter, and reach every documented site.", "Exhaustive per schema over the stated single-fault space; schemas sampled by seed. The faulty adapter records that it really emitted the illegal output (fired).", "deterministic simulation: complete single-fault enumeration per schema against the real invariant checker", category="fault_enumeration")
 
 add("C20", "For each generated schema: (a) the real check_adapter_invariants must accept the real SchemaAdapter, and the engine is run over SchemaAdapter behind an order-preserving wrapper that reads ahead in tape-chosen chunks and injects contexts without an active vertex into every resolver input (answers for them must be null / no neighbors, in place); (b) three generated introspection queries over the meta-schema per schema; rows must equal the reference model evaluated on the harness's own dataset view of its schema AST (vertex types, interface flags, implements/implementer, properties and types, edges with targets, cardinalities, parameters and JSON defaults, entry points).", MODEL_NOTE + " Multisets with fold lists canonicalised: VertexType order is hash order and is not part of the claim. The meta-schema AST is a hand transcription of schema.graphql.", "deterministic simulation: perturbed input streams (read-ahead, injected vertex-less contexts) on the real SchemaAdapter + refinement against a model of the schema")
